@@ -91,4 +91,15 @@ def parseMeta (line : List Nat) : Option (List Nat × List Nat) :=
   | [] => none
   | _ :: rest => (splitColon rest).map fun p => (strip p.1, strip p.2)
 
+/-! ### the `<scorer>` block: one line per symbol (`scorer2str` writes it, `read_scorer` reads it) -/
+
+/-- `charA + ''.join('\t{0:.2f}'.format(v) for v in row)` -/
+def scorerLine (ch : List Nat) (vals : List (List Nat)) : List Nat := join (ch :: vals)
+
+/-- `x.split('\t')`: the symbol is field 0, the values are the rest -/
+def readScorerLine (l : List Nat) : List Nat × List (List Nat) :=
+  match split l with
+  | [] => ([], [])
+  | c :: vs => (c, vs)
+
 end Verif.Line
